@@ -607,19 +607,20 @@ class SSHStreamSession(Generic[AnyStr]):
         if separator is _NEWLINE:
             seplen = 1
             separators = cast(AnyStr, '\n' if self._encoding else b'\n')
-            pat = re.compile(separators)
+            pats = [re.compile(separators)]
         elif isinstance(separator, (bytes, str)):
             seplen = len(separator)
-            pat = re.compile(re.escape(cast(AnyStr, separator)))
+            pats = [re.compile(re.escape(cast(AnyStr, separator)))]
         elif isinstance(separator, Pattern):
             seplen = max_separator_len
-            pat = cast(Pattern[AnyStr], separator)
+            pats = [cast(Pattern[AnyStr], separator)]
         else:
-            bar = cast(AnyStr, '|' if self._encoding else b'|')
+            # Search for each separator on its own, so the one which
+            # completes first in the stream wins no matter how the data
+            # was split up when it arrived
             seplist = list(cast(Iterable[AnyStr], separator))
             seplen = max(len(sep) for sep in seplist)
-            separators = bar.join(re.escape(sep) for sep in seplist)
-            pat = re.compile(separators)
+            pats = [re.compile(re.escape(sep)) for sep in seplist]
 
         curbuf = 0
         buflen = 0
@@ -646,8 +647,12 @@ class SSHStreamSession(Generic[AnyStr]):
                     buf += newbuf
                     start = 0 if seplen == 0 else max(buflen + 1 - seplen, 0)
 
-                    match = pat.search(buf, start)
-                    if match:
+                    matches = [match for match in
+                               (pat.search(buf, start) for pat in pats)
+                               if match]
+
+                    if matches:
+                        match = min(matches, key=lambda match: match.end())
                         idx = match.end()
                         recv_buf[:curbuf] = []
                         recv_buf[0] = buf[idx:]
